@@ -59,6 +59,9 @@ def hier_designs(tier, seed):
             m.add(child(p=net, q=m.q), name=names.get("inst2", "u2"))
             if w == 1:
                 m.add(h.R(r=3)(p=net, n=m.k), name="rr")
+            if "leaf" in names and d == depth:
+                # a top-level leaf device named like the ':'-joined path of a device further down
+                m.add(h.R(r=4)(p=m.q, n=m.k) if w == 1 else ext(w)()(a=m.p, z=m.q), name=names["leaf"])
             return m
         top = level(depth)
         return top
@@ -72,6 +75,9 @@ def hier_designs(tier, seed):
     specs.append((2, False, False, {"net": "u1:k"}))
     specs.append((2, True, False, {"inst1": "u2:u1"}))
     specs.append((2, False, False, {"inst2": "u1:u1", "net": "u1:u1:n"}))
+    specs.append((2, False, False, {"leaf": "u1:rr"}))
+    specs.append((1, False, False, {"leaf": "u1:r1"}))
+    specs.append((2, True, False, {"leaf": "u2:e1"}))
     for s in specs:
         yield (f"flat/d{s[0]}/{'ext' if s[1] else 'prim'}/{'bus' if s[2] else 'scalar'}/{sorted(s[3].items())}",
                lambda s=s: build(s))
